@@ -350,6 +350,17 @@ func Explore(e Entry) Result {
 	return res
 }
 
+// ResetFlows / Flows give direct access to the recorded flows (used by the schedule-exploring native runner).
+func ResetFlows() { flows = map[string]bool{}; valid = map[string]bool{} }
+func Flows() []string {
+	var out []string
+	for f := range flows {
+		out = append(out, f)
+	}
+	sort.Strings(out)
+	return out
+}
+
 // RunSingle runs one program once under the given valuation, without recovering anything.
 func RunSingle(e Entry, bits []bool) {
 	vv = bits
